@@ -24,6 +24,13 @@ Fixpoint ztake_while (p : Z -> bool) (l : list Z) : list Z :=
   | x :: t => if p x then x :: ztake_while p t else []
   end.
 
+(* `flag = False; while not flag: body` : run the body until it raises the flag (None: out of fuel) *)
+Fixpoint do_while {S : Type} (step : S -> S * bool) (fuel : nat) (s : S) : option S :=
+  match fuel with
+  | O => None
+  | S k => let (s', stop) := step s in if stop then Some s' else do_while step k s'
+  end.
+
 (* numbers: a bare record of operations, no laws.  Instantiated with R for the theorems and with
    binary64 floats for the correspondence. *)
 Record ops (T : Type) : Type := mkops {
